@@ -82,8 +82,13 @@ def neighbours(ifaces, dev):
 
 # ---------------------------------------------------------------------------------------------------
 # 1b. name templates and filters
+SHORT_NAMES = [False]      # registry option match_short_name: names are compared without their domain part
+
+
 def tmpl_match(tmpl, name):
     """`spine-{n}` / `tor-{n:\\d+}` against a device name -> dict of captured variables or None"""
+    if SHORT_NAMES[0]:
+        name = name.split(".", 1)[0]
     rx, types = "", []
     for part in re.split(r"(\{[^{}]*\})", tmpl):
         if part.startswith("{") and part.endswith("}"):
@@ -497,6 +502,14 @@ def self_pair_rules(topo, rules):
 def ref_execute(topo, rules, dev):
     """-> {"status": "ok", "peers": [...], "ops": [...], "global": {path: value}, "dict_keys": {...}}
         | {"status": "error", "why": str, "conflict": bool}"""
+    SHORT_NAMES[0] = bool(topo.get("short"))
+    try:
+        return _ref_execute(topo, rules, dev)
+    finally:
+        SHORT_NAMES[0] = False
+
+
+def _ref_execute(topo, rules, dev):
     try:
         glob, dict_keys = ref_global(rules, dev)
         sess = ref_sessions(topo, rules, dev)
